@@ -136,6 +136,60 @@ Proof.
   - intros H. apply live_at_live in H. vm_compute in H. discriminate.
 Qed.
 
+(* (a') a class whose base is a superseded duplicate is neither a root class (its base is visible) nor listed under
+   its base (names with ' ' are skipped): its "View In Hierarchy" link has no anchor *)
+Lemma w_dup_base_wf : wf w_dup_base.
+Proof. apply wf_b_sound. vm_compute. reflexivity. Qed.
+
+Lemma hierarchy_dead_link : exists e h,
+  In e (site_entries cquote table_pinned w_dup_base 1 false) /\ e_prod e = P_hierarchy /\
+  link_of cquote table_pinned w_dup_base e = Some h /\ ~ live_at cquote table_pinned w_dup_base (e_page e) h /\
+  ~ plain_name w_dup_base 3 /\ base_star w_dup_base 3 (e_obj e).
+Proof.
+  assert (H : existsb (fun e => N.eqb (e_prod e) P_hierarchy && Nat.eqb (e_obj e) 1 &&
+                 match link_of cquote table_pinned w_dup_base e with
+                 | Some h => negb (live cquote table_pinned w_dup_base (e_page e) h) | None => false end)
+              (site_entries cquote table_pinned w_dup_base 1 false) = true) by (vm_compute; reflexivity).
+  apply existsb_witness in H. destruct H as [e [Hin H]]. apply andb_prop in H. destruct H as [H Hl].
+  apply andb_prop in H. destruct H as [Hp Ho]. apply Nat.eqb_eq in Ho.
+  destruct (link_of cquote table_pinned w_dup_base e) as [h|] eqn:E; [|discriminate].
+  exists e, h. split; [exact Hin|]. split; [now apply N.eqb_eq|]. split; [exact E|]. split; [|split].
+  - intros Hlive. apply live_at_live in Hlive. rewrite Hlive in Hl. discriminate.
+  - intros [H1 _]. vm_compute in H1. discriminate.
+  - rewrite Ho. apply bs_step with 3; [cbn; auto|apply bs_refl].
+Qed.
+
+(* the `__main__` deviation: the rule HIDDEN:p.__main__ is ignored, the module is rendered and marked private *)
+Lemma w_main_wf : wf w_main.
+Proof. apply wf_b_sound. vm_compute. reflexivity. Qed.
+
+Lemma main_rule_ignored :
+  (exists o, get w_main 1 = Some o /\ o_priv o = HIDDEN) /\ priv_of w_main 1 = PRIVATE /\ visible w_main 1 = true /\
+  In 1 (written table_pinned w_main) /\
+  existsb (fun e => Nat.eqb (e_obj e) 1 && N.eqb (e_prod e) P_module_index && e_private e)
+          (site_entries cquote table_pinned w_main 1 false) = true.
+Proof. split; [eexists; split; reflexivity|]. vm_compute. repeat split; auto. Qed.
+
+(* the same defect as an entry of the site: the cross reference of S.x's inherited docstring, rendered on S's page *)
+Lemma inherited_docstring_entry : exists e h p i,
+  In e (site_entries cquote table_pinned w_inherit 1 false) /\ e_prod e = P_xref /\
+  xref_from cquote table_pinned w_inherit e p i /\ ~ same_page_source w_inherit i /\
+  own_page w_inherit (e_obj e) = false /\ reachable w_inherit (e_obj e) /\
+  link_of cquote table_pinned w_inherit e = Some h /\ ~ live_at cquote table_pinned w_inherit (e_page e) h.
+Proof.
+  set (e := mk (url cquote w_inherit 4) P_xref (doc_ctx cquote w_inherit (url cquote w_inherit 4) 5) false 2).
+  exists e, [c_hash; 116%N], 4, 5.
+  split.
+  { unfold site_entries. apply in_or_app. right. apply in_or_app. left. apply in_flat_map. exists 4.
+    split; [vm_compute; auto|]. unfold xref_entries. apply in_or_app. left. apply in_flat_map. exists 5.
+    split; [vm_compute; auto|]. apply in_map_iff. exists 2. split; [reflexivity|vm_compute; auto]. }
+  split; [reflexivity|]. split.
+  - unfold xref_from. repeat split; vm_compute; auto.
+  - split; [vm_compute; intros H; discriminate H|]. split; [reflexivity|]. split.
+    + exists 0. split; [now left|]. apply desc_step with 1; [cbn; auto|]. apply desc_step with 2; [cbn; auto|apply desc_refl].
+    + split; [vm_compute; reflexivity|]. intros H. apply live_at_live in H. vm_compute in H. discriminate.
+Qed.
+
 (* non-vacuity *)
 Lemma w_example_wf : wf w_example.
 Proof. apply wf_b_sound. vm_compute. reflexivity. Qed.
@@ -152,6 +206,18 @@ Proof.
   - apply (desc_trans_child _ _ 1); [exact D1|cbn; auto].
   - exact D4.
   - apply (desc_trans_child _ _ 4); [exact D4|cbn; auto].
+Qed.
+
+Definition w_example_rank (c : nat) : nat := 0.
+Lemma w_example_classes : wf_classes w_example w_example_rank.
+Proof.
+  constructor.
+  - intros c b H. exfalso. unfold bases_of in H. destruct c as [|[|[|[|[|[|c]]]]]]; cbn in H; try contradiction.
+    destruct c; cbn in H; contradiction.
+  - intros c Hv Hk. unfold valid in Hv. cbn in Hv. destruct c as [|[|[|[|[|[|c]]]]]]; cbn; try lia; auto 10.
+  - intros c b H. exfalso. unfold bases_of in H. destruct c as [|[|[|[|[|[|c]]]]]]; cbn in H; try contradiction.
+    destruct c; cbn in H; contradiction.
+  - intros c. cbn. unfold w_example_rank. lia.
 Qed.
 
 Lemma cquote_no_hash : forall t, ~ In c_hash (cquote t).
